@@ -141,6 +141,7 @@ def registry():
     R.define('within_limit(s)', 'limit(s) == 0 or position(s) <= limit(s)')
     R.define('buffer_ok(s)', 'geometry(s) and s.used_ks <= ks_size(s)')
     NULLS = 'null(ctr_state) or null(in) or null(out)'
+    R.define('consumed()', 'u64(old(data_len) - data_len)')     # bytes processed so far (data_len only decreases)
     R.fn('CTR_encrypt', regions=ENC_SHAPE, configs=cfgs_enc,
          modifies=['out', 'ctr_state.counter_blocks', 'ctr_state.keystream', 'ctr_state.used_ks', 'ctr_state.length_lo', 'ctr_state.length_hi'],
          requires={'valid': 'null(ctr_state) or buffer_ok(ctr_state)', 'within_limit': 'null(ctr_state) or within_limit(ctr_state)'},
@@ -151,19 +152,26 @@ def registry():
                           'or old(position(ctr_state)) + data_len >= 2**128))' % (NULLS, ERR_CTR_REPEATED_KEY_STREAM),
              'position': 'result == 0 ==> position(ctr_state) == old(position(ctr_state)) + data_len',
              'state': 'result == 0 ==> (buffer_ok(ctr_state) and within_limit(ctr_state))'},
+         lemmas={'len_lo': 'not null(ctr_state) ==> ctr_state.length_lo == u64(old(ctr_state.length_lo) + consumed())',
+                 'len_hi': 'not null(ctr_state) ==> ctr_state.length_hi == u64(old(ctr_state.length_hi) + (1 if ctr_state.length_lo < old(ctr_state.length_lo) else 0))',
+                 'position': 'not null(ctr_state) ==> position(ctr_state) == old(position(ctr_state)) + consumed() or '
+                             '(ctr_state.length_hi == 0 and result == %d)' % ERR_CTR_REPEATED_KEY_STREAM},
          loops={
              0: dict(invariants={
-                 'cursor': 'data_len <= old(data_len) and offset(in) == old(data_len) - data_len and offset(out) == old(data_len) - data_len',
+                 'cursor': 'data_len <= old(data_len) and offset(in) == consumed() and offset(out) == consumed()',
                  'buffer': 'buffer_ok(ctr_state)',
-                 'position': 'position(ctr_state) == old(position(ctr_state)) + (old(data_len) - data_len)',
+                 # the 128-bit byte count, word by word (each step is then 64-bit reasoning); `position` is their consequence
+                 'length_lo': 'ctr_state.length_lo == u64(old(ctr_state.length_lo) + consumed())',
+                 'length_hi': 'ctr_state.length_hi == u64(old(ctr_state.length_hi) + (1 if ctr_state.length_lo < old(ctr_state.length_lo) else 0))',
+                 'no_wrap': 'ctr_state.length_hi >= old(ctr_state.length_hi)',
                  'limit_ok': 'within_limit(ctr_state)',
-                 'unread': 'all(i >= old(data_len) - data_len ==> old(in)[i] == oldmem(old(in), i) for i in range(old(data_len)))'},
+                 'unread': 'all(i >= consumed() ==> old(in)[i] == oldmem(old(in), i) for i in range(old(data_len)))'},
                  decreases='data_len'),
              1: dict(invariants={
                  'bounds': 'j <= ks_to_use and ks_to_use <= data_len and ks_to_use <= ks_size(ctr_state) - ctr_state.used_ks and ks_to_use <= 128',
-                 'cursor': 'offset(in) == old(data_len) - data_len + j and offset(out) == old(data_len) - data_len + j',
-                 'xor': 'all(old(out)[old(data_len) - data_len + t] == oldmem(old(in), old(data_len) - data_len + t) ^ ctr_state.keystream[ctr_state.used_ks + t] '
+                 'cursor': 'offset(in) == consumed() + j and offset(out) == consumed() + j',
+                 'xor': 'all(old(out)[consumed() + t] == oldmem(old(in), consumed() + t) ^ ctr_state.keystream[ctr_state.used_ks + t] '
                         'for t in range(j))',
-                 'unread': 'all(i >= old(data_len) - data_len + j ==> old(in)[i] == oldmem(old(in), i) for i in range(old(data_len)))'},
+                 'unread': 'all(i >= consumed() + j ==> old(in)[i] == oldmem(old(in), i) for i in range(old(data_len)))'},
                  decreases='ks_to_use - j')})
     return R
